@@ -88,10 +88,14 @@ def run_single(cfg: dict, ctx, letters=None, conn_letters=None, fp=True, prior=(
             if int.from_bytes(c0.request_bytes()[:2], 'big') == cfg['tx_start']:
                 break
     for sc in prior:
+        if isinstance(sc, dict):       # an earlier request with scripted connect outcomes as well
+            peer.forced_conn = list(sc['conn'])
+            sc = sc['tx']
         peer.forced = list(sc)
         loop.kern.ntx = 0
         loop.run(_exec(make_command(p, cfg.get('cmd', 'read')), p))
     peer.forced = []
+    peer.forced_conn = []
     peer.ctx = ctx
     loop.kern.ntx = 0
     kern = loop.kern
